@@ -204,6 +204,11 @@ type depFixture struct {
 }
 
 func newDepFixture(p DepParams, keys []KeySpec, blocks []DepBlock) (*depFixture, error) {
+	return newDepFixtureWith(p, keys, blocks, nil)
+}
+
+// newDepFixtureWith lets a property adjust the genesis spec (after the deposit parameters were filled in).
+func newDepFixtureWith(p DepParams, keys []KeySpec, blocks []DepBlock, adjust func(*world.GenesisSpec)) (*depFixture, error) {
 	spec := world.DefaultSpec(1, 2)
 	spec.RelayerParams.ElectingPeriod = 1000 * time.Hour
 	spec.BtcParams.DepositTaxRate = p.Rate
@@ -237,6 +242,9 @@ func newDepFixture(p DepParams, keys []KeySpec, blocks []DepBlock) (*depFixture,
 		} else {
 			spec.BtcHashes = append(spec.BtcHashes, world.DSha([]byte(fmt.Sprintf("filler-hash-%d", h))))
 		}
+	}
+	if adjust != nil {
+		adjust(&spec)
 	}
 	s, err := world.NewSim(spec)
 	if err != nil {
